@@ -2,6 +2,7 @@ import ZoektModel.Basic.Proto
 import ZoektModel.C01.Spec
 import ZoektModel.C01.BTree
 import ZoektModel.C01.Word
+import ZoektModel.C01.Select
 namespace ZoektModel.C01
 open ZoektModel ZoektModel.Proto
 
@@ -155,12 +156,27 @@ def handleWord (dataHex wordHex impl : String) : String :=
     else answer model
   | _, _ => badCase "fields"
 
+/-- `select <pattern runes> <frequencies in sorted-trigram order>`: the positions of the two selected trigrams -/
+def handleSelect (pat freqs impl : String) : String :=
+  match natList? pat, natList? freqs with
+  | some pat, some freqs =>
+    let perm := sortedPositions pat
+    let r := findSelective perm (mkIndexMap perm) freqs
+    let model := s!"first={r.1} last={r.2} genuine=1"
+    -- the property on the implementation's answer: two genuine trigram positions of the pattern, first ≤ last
+    match (fields impl).map (fun f => (f.splitOn "=").getD 1 "") |>.mapM (·.toNat?) with
+    | some [f, l, g] =>
+      if f ≤ l ∧ l + 3 ≤ pat.length ∧ g = 1 then answer model else specFail model "selection-inconsistent"
+    | _ => badCase "impl output"
+  | _, _ => badCase "fields"
+
 def handle (line : String) : String :=
   let (inp, impl) := splitCase line
   match fields inp with
   | ["search", live, names, contents, tree] => handleSearch live names contents tree impl
   | ["btree", b, v, ngs, qs] => handleBtree b v ngs qs impl
   | ["word", d, w] => handleWord d w impl
+  | ["select", p, fr] => handleSelect p fr impl
   | _ => badCase "op"
 
 def main : IO Unit := runLines handle
